@@ -70,8 +70,13 @@ def run_scratch(name, tier='quick'):
         if rdoc.get('kind') == 'concrete' and rdoc.get('cases'):
             # the (shrunk) input that exposed this change joins the corpus of its property: it runs first in every later check
             os.makedirs('%s/corpus/%s' % (V, prop), exist_ok=True)
-            json.dump({'from': 'seeded change %s' % name, 'cases': [{'stream': c['stream'], 'case': c['case']} for c in rdoc['cases'][:2]]},
-                      open('%s/corpus/%s/%s.json' % (V, prop, name), 'w'), indent=1)
+            cf = '%s/corpus/%s/%s.json' % (V, prop, name)
+            json.dump({'from': 'seeded change %s' % name, 'cases': [{'stream': c['stream'], 'case': c['case']} for c in rdoc['cases'][:2]]}, open(cf, 'w'), indent=1)
+            # a corpus input must pass on the unchanged tree (a shrunk case can leave the generator's invariants): replay it there, drop it otherwise
+            rc2, out2 = sh('./check %s --replay %s' % (prop, cf), cwd=V, env=dict(ENV, TL_ROOT='/repo', VERIF_OUT=root + '/clean'), timeout=3000)
+            if rc2 != 0:
+                os.remove(cf)
+                meta['corpus'] = 'rejected: the shrunk input does not pass on the unchanged tree: ' + out2[-300:]
         meta.setdefault('checks', {})[tier] = {'exit': rc, 'lines': lines, 'reason': reason, 'wall_s': round(time.time() - t0, 1),
                                                 'caught': rc == 1 and any(l.startswith('VIOLATION') for l in lines),
                                                 'concrete': bool(lines) and not any('no-failing-input-found' in l for l in lines if l.startswith('VIOLATION')),
